@@ -201,6 +201,10 @@ def check_inert(chk, tu, closed_records):
             seen.add(key)
             states.append(('closed', rec))
     states.append(('never-issued', None))
+    # descriptor numbers are 32-bit unsigned guest values: the top of the range must be rejected like any other number beyond
+    # the table (a bound check done in a signed type lets them through as negative indices)
+    states.append(('never-issued-high', None))
+    states.append(('never-issued-msb', None))
     for imp, gens in sorted(eps.items()):
         pos = DESCRIPTOR_PARAMS.get(imp)
         if pos is None:
@@ -223,7 +227,7 @@ def check_inert(chk, tu, closed_records):
                         if rec is not None:
                             t.append(dict(rec))
                         return t
-                    idx = 5 if rec is not None else 9
+                    idx = 5 if rec is not None else {'never-issued': 9, 'never-issued-high': 0xFFFFFFFF, 'never-issued-msb': 0x80000000}[sname]
 
                     def mk(it, st):
                         args = [unk('instance')]
